@@ -47,7 +47,7 @@ package saml
 //@ invariant[C04] acc: requestIDvalid == exists(0, iter, func(j int) bool { return possibleRequestIDs[j] == response.InResponseTo })
 
 //@ contract (*ServiceProvider).validateAudienceRestriction
-//@ requires[cfg] a: assertion != nil && assertion.Conditions != nil
+//@ requires a: assertion != nil && assertion.Conditions != nil
 //@ ensures[C03] default: sp.ValidateAudienceRestriction == nil ==> (err == nil) == audienceOK(sp, assertion)
 //@ ghost func CustomAudienceOK(fn func(*Assertion) error, a *Assertion) bool
 //@ -- a configured application validator decides alone: its rejection is final, the built-in rule is not a fallback
@@ -57,7 +57,7 @@ package saml
 //@    exists(0, iter, func(k int) bool { return assertion.Conditions.AudienceRestrictions[k].Audience.Value == spAudience(sp) }))
 
 //@ contract (*ServiceProvider).validateAssertion
-//@ requires[cfg] a: assertion != nil
+//@ requires a: assertion != nil
 //@ requires[cfg] md: sp.IDPMetadata != nil
 //@ -- soundness: acceptance implies every window / addressing / request condition, for every confirmation
 //@ ensures[C02] fresh: err == nil ==> issueFresh(assertion.IssueInstant, now)
@@ -80,12 +80,12 @@ package saml
 //@ -- unmarshalElement serialises el and parses it with encoding/xml: its functional meaning lives in the
 //@ -- dependencies; the contract records which element a value was read from (a call-history fact)
 //@ contract (*ServiceProvider).parseAssertion
-//@ requires[cfg] el: assertionEl != nil
+//@ requires el: assertionEl != nil
 //@ requires[cfg] md: sp.IDPMetadata != nil
 //@ ensures[C09] nil_iff_err: (result == nil) == (err != nil)
 //@ ensures[C02,C03,C04] valid: result != nil ==> assertionValid(sp, result, possibleRequestIDs, now)
 //@ ensures[C03] audience: result != nil && sp.ValidateAudienceRestriction == nil ==> audienceOK(sp, result)
-//@ requires[cfg] req: signatureRequirement == signatureRequired || signatureRequirement == signatureNotRequired
+//@ requires req: signatureRequirement == signatureRequired || signatureRequirement == signatureNotRequired
 //@ -- the element handed to the unmarshaller is the element whose signature was verified
 //@ ensures[C01] accepted: result != nil && sp.SignatureVerifier == nil ==> Accepted(sp, *result, signatureRequirement)
 
@@ -131,18 +131,18 @@ package saml
 //@    AssertionReadFrom(el, a) ==> Accepted(sp, a, signatureNotRequired)
 
 //@ contract findChildren
-//@ requires[cfg] el: parentEl != nil
+//@ requires el: parentEl != nil
 //@ ensures[C01] match: err == nil ==> forall(0, len(result), func(k int) bool {
 //@    return result[k] != nil && result[k].Tag == childTag && NSOf(result[k]) == childNS })
 //@ loop 1 vars rv []*etree.Element
 //@ invariant[C01] acc: forall(0, len(rv), func(k int) bool { return rv[k] != nil && rv[k].Tag == childTag && NSOf(rv[k]) == childNS })
 
 //@ contract findOneChild
-//@ requires[cfg] el: parentEl != nil
+//@ requires el: parentEl != nil
 //@ ensures[C01,C09] one: err == nil ==> result != nil && result.Tag == childTag && NSOf(result) == childNS
 
 //@ contract findChild
-//@ requires[cfg] el: parentEl != nil
+//@ requires el: parentEl != nil
 //@ ensures[C01] one: err == nil && result != nil ==> result.Tag == childTag && NSOf(result) == childNS
 
 //@ contract parseCert
@@ -158,13 +158,13 @@ package saml
 //@ records ret: ReturnedSigningCerts(sp, result, err)
 
 //@ contract (*ServiceProvider).getCertBasedOnFingerprint
-//@ requires[cfg] el: el != nil
+//@ requires el: el != nil
 //@ requires[cfg] fp: sp.IDPCertificateFingerprint != nil && sp.IDPCertificateFingerprintAlgorithm != nil
 //@ ensures[C01] single: err == nil ==> len(result) == 1
 //@ records ret: ReturnedFingerprintCerts(sp, el, result, err)
 
 //@ contract (*ServiceProvider).validateSignature
-//@ requires[cfg] el: el != nil
+//@ requires el: el != nil
 //@ -- the roots handed to the validation context come from exactly one configured source
 //@ derive@call[C01] NewDefaultValidationContext #1 (store dsig.X509CertificateStore) uses certs []*x509.Certificate config_roots:
 //@    sameCerts(storeRoots(store), certs) && len(certs) > 0 && sp.IDPMetadata != nil &&
@@ -180,7 +180,7 @@ package saml
 
 //@ contract unmarshalElement
 //@ trusted
-//@ requires[cfg] el: el != nil
+//@ requires el: el != nil
 //@ ensures[C01] source: err == nil ==> valueReadFrom(v, el)
 
 //@ -- ------------------------------------------------------------------------------------------
@@ -195,15 +195,15 @@ package saml
 //@ go func isInvalidResponseError(err error) bool { _, ok := err.(*InvalidResponseError); return ok }
 
 //@ contract (*ServiceProvider).decryptElement
-//@ requires[cfg] el: encryptedEl != nil
+//@ requires el: encryptedEl != nil
 //@ -- decrypted plaintext is parsed only after the round-trip validator accepted exactly those bytes
 //@ assert@call[C01,C08] ReadFromBytes #1 (doc *etree.Document, b []byte) plaintext_validated: RoundTripSafe(b)
 //@ ensures[C09] nonnil: err == nil ==> result != nil
 
 //@ contract (*ServiceProvider).parseEncryptedAssertion
-//@ requires[cfg] el: encryptedAssertionEl != nil
+//@ requires el: encryptedAssertionEl != nil
 //@ requires[cfg] md: sp.IDPMetadata != nil
-//@ requires[cfg] req: signatureRequirement == signatureRequired || signatureRequirement == signatureNotRequired
+//@ requires req: signatureRequirement == signatureRequired || signatureRequirement == signatureNotRequired
 //@ ensures[C09] nil_iff_err: (result == nil) == (err != nil)
 //@ ensures[C02,C03,C04,C08] valid: result != nil ==> assertionValid(sp, result, possibleRequestIDs, now)
 //@ ensures[C03,C08] audience: result != nil && sp.ValidateAudienceRestriction == nil ==> audienceOK(sp, result)
@@ -211,9 +211,9 @@ package saml
 //@ ensures[C01,C08] accepted: result != nil && sp.SignatureVerifier == nil ==> Accepted(sp, *result, signatureRequirement)
 
 //@ contract (*ServiceProvider).parseResponse
-//@ requires[cfg] el: responseEl != nil
+//@ requires el: responseEl != nil
 //@ requires[cfg] md: sp.IDPMetadata != nil
-//@ requires[cfg] req: signatureRequirement == signatureRequired || signatureRequirement == signatureNotRequired
+//@ requires req: signatureRequirement == signatureRequired || signatureRequirement == signatureNotRequired
 //@ ensures[C09] nil_iff_err: (result == nil) == (err != nil)
 //@ ensures[C02,C03,C04] valid: result != nil ==> assertionValid(sp, result, possibleRequestIDs, now)
 //@ ensures[C03] audience: result != nil && sp.ValidateAudienceRestriction == nil ==> audienceOK(sp, result)
@@ -256,7 +256,7 @@ package saml
 //@    Accepted(sp, *result, signatureRequired) || Accepted(sp, *result, signatureNotRequired)
 
 //@ contract (*ServiceProvider).parseArtifactResponse
-//@ requires[cfg] el: artifactResponseEl != nil
+//@ requires el: artifactResponseEl != nil
 //@ requires[cfg] md: sp.IDPMetadata != nil
 //@ ensures[C09] nil_iff_err: (result == nil) == (err != nil)
 //@ ensures[C09] errtype: err != nil ==> isInvalidResponseError(err)
@@ -324,13 +324,15 @@ package saml
 //@ -- randomBytes fills exactly n bytes from the configured source with io.ReadFull (a single Read may legally come up
 //@ -- short); it panics when the source fails: an environment fault, not counted (the unit's safety obligations are off)
 //@ contract randomBytes
-//@ requires[cfg] n: n >= 0
+//@ requires n: n >= 0
 //@ ensures[C12] length: len(result) == n
 //@ assert@call[C12] io.ReadFull #1 (r io.Reader, buf []byte) uses rv []byte fills_all_from_configured_source:
 //@    r == RandReader && sameBytes(buf, rv) && len(buf) == n
 
 //@ contract elementToBytes
-//@ requires[cfg] el: el != nil
+//@ requires el: el != nil
+//@ contract elementToString
+//@ requires el: el != nil
 
 //@ contract (*ServiceProvider).MakeArtifactResolveRequest
 //@ ensures[C09,C12] nonnil: err == nil ==> result != nil
@@ -342,7 +344,7 @@ package saml
 //@      r.Issuer != nil && r.Issuer.Value == sp.IDPMetadata.EntityID && r.Status.StatusCode.Value == StatusSuccess }
 
 //@ contract (*ServiceProvider).validateLogoutResponse
-//@ requires[cfg] r: resp != nil
+//@ requires r: resp != nil
 //@ requires[cfg] md: sp.IDPMetadata != nil
 //@ ensures[C18] exact: (err == nil) == logoutResponseOK(sp, resp)
 
@@ -376,8 +378,8 @@ package saml
 
 //@ -- bounded inflate: the reader never hands out more than flateUncompressLimit bytes in total
 //@ contract (*saferFlateReader).Read
-//@ requires[cfg] inner: r.r != nil
-//@ requires[cfg] inv: r.count >= 0 && r.count <= flateUncompressLimit
+//@ requires inner: r.r != nil
+//@ requires inv: r.count >= 0 && r.count <= flateUncompressLimit
 //@ ensures[C09] bounded: r.count <= flateUncompressLimit && r.count >= 0
 //@ ensures[C09] progress: n >= 0 && n <= len(p)
 
